@@ -458,7 +458,7 @@ def bind5_stub(ctx, users: Iterable[str]) -> int:
             if isinstance(nd, ast.Call) and isinstance(nd.func, ast.Attribute) and \
                     isinstance(nd.func.value, ast.Name) and nd.func.value.id == "comm":
                 meth = nd.func.attr
-                fi = comm_cls.methods.get(meth)
+                fi = p.lookup_method(comm_cls.qualname, meth)      # own or inherited from a base class of the stub
                 kwn = [k.arg for k in nd.keywords if k.arg]
                 key = (mname, meth, len(nd.args), tuple(kwn))
                 if key in seen:
